@@ -139,7 +139,7 @@ bool splinetable<Alloc>::write_key(const char* key, const T& value){
 	}
 	if(keylen<=9){ //up to 8 bytes of data
 		for(size_t i=0; i<keylen-1; i++){
-			if(!(std::isupper(key[i]) || std::isdigit(key[i])) || key[i]=='-' || key[i]=='_')
+			if(!(std::isupper(key[i]) || std::isdigit(key[i]) || key[i]=='-' || key[i]=='_'))
 				throw std::runtime_error("Standard (short) FITS header keywords are forbidden "
 										 "to contain characters other than uppercase letters, "
 										 "digits, dashes, and underscores (key was '"+
